@@ -90,7 +90,7 @@ func (v version) clone() version {
 
 var c06MethodSets = [][]string{nil, {"GET"}, {"POST"}, {"GET", "POST"}, {"PUT"}}
 
-func genVersion(rng *rand.Rand, src string, prev version) version {
+func genVersion(rng *rand.Rand, pool []string, src string, prev version) version {
 	btFor := map[string]bool{}
 	fix := func(v version) version {
 		// (1) equal backtracking flag for rules sharing an expression (statement's precondition) and one spelling (wildcard
@@ -137,10 +137,10 @@ func genVersion(rng *rand.Rand, src string, prev version) version {
 		return v
 	}
 	newRule := func(id int) ruleSpec {
-		rs := ruleSpec{ID: fmt.Sprintf("%s-r%d", src, id), Expr: c06Exprs[rng.IntN(len(c06Exprs))], Methods: c06MethodSets[rng.IntN(len(c06MethodSets))], BT: rng.IntN(2) == 0, Dup: rng.IntN(10) == 0}
+		rs := ruleSpec{ID: fmt.Sprintf("%s-r%d", src, id), Expr: pool[rng.IntN(len(pool))], Methods: c06MethodSets[rng.IntN(len(c06MethodSets))], BT: rng.IntN(2) == 0, Dup: rng.IntN(10) == 0}
 		if rng.IntN(4) == 0 { // a rule with two or three routes
 			for k := 1 + rng.IntN(2); k > 0; k-- {
-				if e := c06Exprs[rng.IntN(len(c06Exprs))]; core.Shape(e) != core.Shape(rs.Expr) {
+				if e := pool[rng.IntN(len(pool))]; core.Shape(e) != core.Shape(rs.Expr) {
 					rs.Extra = append(rs.Extra, e)
 				}
 			}
@@ -192,7 +192,7 @@ func genVersion(rng *rand.Rand, src string, prev version) version {
 			}
 		case 5: // move a rule to another expression
 			if len(v) > 0 {
-				v[rng.IntN(len(v))].Expr = c06Exprs[rng.IntN(len(c06Exprs))]
+				v[rng.IntN(len(v))].Expr = pool[rng.IntN(len(pool))]
 			}
 		case 6: // flip backtracking of one expression
 			if len(v) > 0 {
@@ -357,7 +357,7 @@ func TestC06(t *testing.T) {
 	r.Assume("providers never create an already loaded source and never update/delete an unknown one (histories are generated accordingly)",
 		"rules sharing one expression carry equal backtracking flags")
 	probes := c06Probes()
-	nHist := r.Pick(600, 12000)
+	nHist := r.Pick(1000, 12000)
 	srcs := []string{"s1", "s2", "s3"}
 	r.Set("probe_requests", len(probes))
 
@@ -371,6 +371,15 @@ func TestC06(t *testing.T) {
 		if err != nil {
 			r.Inconclusive("app start: " + err.Error())
 			return
+		}
+		// every second history works on a few expressions only: removals and re-additions then meet the same tree nodes
+		// again and again (few keys), the others spread over the whole pool
+		pool := c06Exprs
+		if rng.IntN(2) == 0 {
+			pool = nil
+			for _, i := range rng.Perm(len(c06Exprs))[:4+rng.IntN(5)] {
+				pool = append(pool, c06Exprs[i])
+			}
 		}
 		state := map[string]version{}
 		gone := map[string]version{}
@@ -387,17 +396,17 @@ func TestC06(t *testing.T) {
 			switch {
 			case !loaded && step > 0 && rng.IntN(4) == 0:
 				// an update for a source that has nothing loaded (after a rejected creation, or never created): it loads the rules
-				op = c06Op{Kind: "update", Src: src, V: genVersion(rng, src, nil)}
+				op = c06Op{Kind: "update", Src: src, V: genVersion(rng, pool, src, nil)}
 			case !loaded && gone[src] != nil && rng.IntN(2) == 0:
 				// the source comes back with exactly the content it had when it went away (file restored, endpoint answering again)
 				op = c06Op{Kind: "create", Src: src, V: gone[src].clone()}
 			case !loaded:
-				op = c06Op{Kind: "create", Src: src, V: genVersion(rng, src, nil)}
+				op = c06Op{Kind: "create", Src: src, V: genVersion(rng, pool, src, nil)}
 			case rng.IntN(5) == 0:
 				op = c06Op{Kind: "delete", Src: src}
 				gone[src] = cur.clone()
 			default:
-				op = c06Op{Kind: "update", Src: src, V: genVersion(rng, src, cur)}
+				op = c06Op{Kind: "update", Src: src, V: genVersion(rng, pool, src, cur)}
 			}
 			var opErr error
 			func() {
